@@ -13,6 +13,16 @@ CHECKS = {
 CHECKS['C11'] = ('exhaustive enumeration of short add-histories + Hypothesis-generated add/load histories, compared with a reference resolver',
   'Model-based testing against an independent reference resolver: all add-histories up to length 2 (quick) / 3 (thorough) over a 5x4x6 alphabet enumerated completely, plus generated histories up to 30 steps (add with enum- or string-valued arguments, load of rule lists, load of the exported recipe), queried on a 6x8 (operator, scope) grid after every step; refused adds must raise ValueError and leave the state unchanged. Exhaustive only within the stated alphabet and length bound.',
   'The support predicate is taken from the library (check_op_quantization_config); Python re semantics trusted.', 'DESIGN.md 4 C11')
+PIPE = 'Hypothesis-generated float models (DAGs over the 21 supported + 7 unsupported op kinds, multi-consumer tensors, repeated operands, exported-and-consumed tensors, shared constants/buffers, 1..3 subgraphs, random valid op order) built directly as flatbuffers, crossed with shipped recipes or generated rule sequences and calibration inputs, pushed through the public Quantizer API; '
+CHECKS['C01'] = ('property-based testing: generated model x recipe x data, structural well-formedness oracle + LiteRT interpreter load/invoke',
+  PIPE + 'every returned model is raw-parsed and checked for index ranges, unique names, single producers, execution order, graph I/O and signature entries, then allocated and invoked per signature in the interpreter. Held on all explored cases; no absence claim.',
+  'Trusts the flatbuffer schema classes and the LiteRT interpreter; the interpreter clause is skipped for skip_checks recipes; a worker killed by a signal while running a case is reported as a violation.', 'DESIGN.md 4 C01')
+CHECKS['C02'] = ('property-based testing: generated model x recipe, graph-skeleton isomorphism oracle (delete inserted Q/DQ, alias classes)',
+  PIPE + 'the result is matched against the source: same ops/options/arity in order, every operand resolving through inserted-op alias classes to the same original tensor, original tensors unchanged in name/shape, graph inputs/outputs and signature entries denoting the same positions, I/O dtype float32 unless the reference resolver says a rule covers INPUT/OUTPUT, source bytes untouched.',
+  'Original tensors are identified by index (new tensors are appended); the support predicate of the reference resolver is the library\'s.', 'DESIGN.md 4 C02')
+CHECKS['C03'] = ('property-based testing: per-operand dtype/constant oracle from a reference resolver + mode table',
+  PIPE + 'for every operand of every original operator the dtype seen by the operator (and, for untouched operands, the constant bytes) is compared with what the reference resolution (last-applicable-rule) and the mode table (none / weight-only / fp16 / dynamic-range / static-range) predict; inserted Q/DQ ops must convert between quantized and float types.',
+  'Operand roles come from an independently written op table; recipes with skip_checks are excluded; the support predicate is the library\'s.', 'DESIGN.md 4 C03')
 NOT_APPLICABLE = {}
 
 def main():
